@@ -133,7 +133,8 @@ Proof.
     + exact Hs.
   - destruct (lift_res (w_obj w) (assign colors (class_schema cls) (w_obj w) p v)) as [t e]. simpl. exact Hs.
   - destruct (update colors (class_schema cls) (w_obj w) arg true false) as [t e]. simpl. exact Hs.
-  - destruct (def_shape_inv _ Hs) as [t0 Ht]. rewrite Ht. rewrite reset_any_state. simpl. exact pristine_shape.
+  - destruct (def_shape_inv _ Hs) as [t0 Ht]. rewrite Ht. rewrite reset_any_state.
+    cbn [fst snd w_def]. exact pristine_shape.
   - destruct (get_style colors (class_schema cls) (class_families cls) dstyle_schema
                         (def_style_state (w_def w)) valid_keys (w_obj w) (show_style_kwargs kw)) as [t e].
     simpl. exact Hs.
@@ -155,16 +156,16 @@ Proof.
   intros w.
   assert (Hs : def_shape (w_def w) = true) by (apply run_keeps_shape; exact pristine_shape).
   destruct (def_shape_inv _ Hs) as [t0 Ht].
-  unfold step. rewrite Ht. rewrite reset_any_state. simpl. split; reflexivity.
+  unfold step. rewrite Ht. rewrite reset_any_state. cbn [fst snd w_def o_err]. split; reflexivity.
 Qed.
 
 (* ---------------------------------------------------------------- record: the variant before f095e9f (merge) *)
-Definition p_label : path := ["display"; "style"; "base"; "label"].
+Definition p_label : path := ["display"; "style"; "markers"; "color"].
 
 Lemma reset_merge_variant_witness :
-  In (p_label, KToStr, false) (sleaves defaults_schema) /\ in_literal p_label = false /\
-  reset_holds_m RMerge p_label (VStr "lbl") NAttr = false /\
-  reset_holds_m RRebuild p_label (VStr "lbl") NAttr = true.
+  In (p_label, KColor, false) (sleaves defaults_schema) /\ in_literal p_label = false /\
+  reset_holds_m RMerge p_label (VStr "red") NAttr = false /\
+  reset_holds_m RRebuild p_label (VStr "red") NAttr = true.
 Proof.
   split; [|split; [|split]]; try (vm_compute; reflexivity).
   apply (nth_error_In _ (leaf_index defaults_schema p_label)). vm_compute. reflexivity.
